@@ -131,4 +131,5 @@ def check(seed, n):
         if bad:
             violations.append({"property": "C03", "stream": "pseudo", "sig": name + ":" + bad.split(" ")[0].rstrip("0123456789"), "case": case,
                                "what": "{}{}: {}".format(name, tuple(case["args"]), bad)})
-    return {"evaluations": len(metas), "violations": violations, "disagreements": [], "distribution": dist}
+    return {"evaluations": len(metas), "violations": violations, "disagreements": [], "distribution": dist,
+            "distinct": len({repr(m) for m in metas})}
